@@ -25,11 +25,12 @@ def main():
     props = [json.loads(l) for l in open(os.path.join(HERE, "properties.jsonl"))]
     repo_fix = []
     checks, na = [], []
+    claimed = set(open(os.path.join(HERE, "tools", "claimed.txt")).read().split())
     for p in props:
         pid = p["id"]
         path = os.path.join(HERE, "vmon", "checks", pid.lower() + ".py")
         c = consts(path) if os.path.exists(path) else {}
-        if not c.get("MANIFEST"):
+        if not c.get("MANIFEST") or pid not in claimed:
             na.append({"property_id": pid, "reason": c.get("NOT_CLAIMED", "check not built yet (work in progress); no claim is made")})
             continue
         m = c["MANIFEST"]
